@@ -6,12 +6,32 @@ V = os.path.dirname(os.path.dirname(os.path.abspath(__file__)))
 NOTE = ("Trusted: go/types, go/ssa and the CHA/VTA/own-RTA call graphs of x/tools v0.29.0; calls visible to the call graph "
         "(no unsafe, no goroutines, reflect read-only: asserted on every run); frozen specification tables in the checker. "
         "Decides only the structural clauses named in the evidence (coverage.explanation); value-level behaviour is not decided.")
+GEN = ("Static decision, over every function, path and call site of the package as loaded from /repo's working tree, of structural "
+       "necessary conditions of the property (listed with their rules in the evidence file's coverage.explanation). Because these are facts "
+       "about the shape of the code they hold for all inputs, stores, batch sizes, fault positions and schedules at once, which the sampled "
+       "tests cannot give; value-level behaviour is explicitly not decided (coverage.not_decided). ")
 CLAIMED = {
- "C13": ("Static decision, over every function, path and call site of the package as loaded, of the structural necessary conditions of C13: no mutating storage call outside the three writer plans or reachable from a SELECT plan, from planning, or from parsing/checking; no storage-reaching call before the parse/validate error test; every storage error is examined on every path and returned on every failure path with no further storage call. Universally quantified over stores, fault positions and iteration modes because it is a fact about the code's shape, which the sampled tests cannot give.",
-         "call-graph effect analysis (mutating-site confinement, RTA closure) + SSA path/dominance analysis of error propagation", "DESIGN.md §4.1, §5 C13"),
- "C14": ("Static decision of the structural necessary conditions of C14 for every expression node kind and statement form: each Check visits every child and propagates its error (fault seen at every syntactic position), statements validate every expression, WHERE is checked and required Boolean in SELECT and DELETE, keyword restrictions are wired for PUT/REMOVE, function-call Check consults registry and arity (known finding), and rejection precedes any storage access.",
-         "type-structure driven visitor-completeness check + SSA dominance/path analysis + call-graph reachability", "DESIGN.md §4.2, §5 C14"),
+ "C01": ("Decides: pairs leave a scan only through the full filter on that pair; no consumed row is dropped; point reads sorted; empty values are pairs; operators routed to their documented primitives identically in both modes.", "dominance/control-dependence analysis on SSA, loop-exit classification, operator dispatch table extraction by constant propagation, call-graph primitive wiring", "DESIGN.md §5 C01"),
+ "C02": ("Decides: operator-to-region routing, key-only narrowing from literals, OR fall-back to the wider operand, scan-kind to plan mapping without later substitution, start/end/prefix role chain with inclusive nil-guarded end.", "constant-propagation walk of the optimizer's dispatch, dominance analysis, field/argument role flow", "DESIGN.md §5 C02"),
+ "C03": ("Decides: twin agreement of operator dispatch, boxed kinds, arity tests and list representations; batch loops drop no consumed rows, emit no skipped rows, terminate; chunk cache never aliases results.", "twin extraction + comparison over SSA, loop and path analysis", "DESIGN.md §5 C03"),
+ "C04": ("Decides: folded literals keep the kind of the value they were folded from and are built from the typed value; folding only on success; re-association only for + and * with equal inner operator.", "SSA value-provenance and dominance analysis of the expression optimizer", "DESIGN.md §5 C04"),
+ "C05": ("Decides: chunk cache re-indexed by exactly the rows that passed with a cumulative index; cache entries never alias results; per-row cache cleared between rows; one column per announced name.", "typestate/loop analysis of the alias caches on SSA", "DESIGN.md §5 C05"),
+ "C06": ("Decides the crash classes visible in the code's shape: unchecked type assertions, arity before body calls, integer division guards, user-number-driven slices, chunk-cache indexes, fetch-loop termination.", "dominance analysis of assertion/arity/division/slice guards, path analysis, loop-exit analysis", "DESIGN.md §5 C06"),
+ "C07": ("Decides: comparators cannot crash on mixed kinds and have the documented direction; sort elided only for a lone `order by key asc`; every child row pushed once; default direction per field.", "dominance analysis, comparator direction extraction, loop analysis", "DESIGN.md §5 C07"),
+ "C08": ("Decides: offset/count never swapped from parser to plans; skipped rows never emitted; remaining offset recomputed per batch; rows dropped only on the count condition; pushed-down limit bypassed only when absent; DELETE LIMIT wraps the scan.", "field-flow, guard-strictness and loop-exit analysis on SSA", "DESIGN.md §5 C08"),
+ "C09": ("Decides: framed group keys, fresh cloned accumulators per group, accumulator update/complete shapes for count/sum/avg/min/max, per-call result substitution, one constructor and type per aggregate name.", "SSA shape analysis of accumulators, clone freshness, registry extraction", "DESIGN.md §5 C09"),
+ "C10": ("Decides: each documented function registered under its name with both bodies reaching the documented primitive; declared result kinds; every list consumer covers every list representation in both modes.", "registry extraction from the initializer, call-graph wiring, boxed-kind inference, type-switch coverage", "DESIGN.md §5 C10"),
+ "C11": ("Decides: BatchDelete gets exactly the fetched rows' keys; DELETE never puts; key-removal shortcut only without LIMIT and without any AND (walk sees every node); LIMIT wraps the scan.", "value-flow, dominance and callback analysis on SSA; effect confinement", "DESIGN.md §5 C11"),
+ "C12": ("Decides: writes only while not executed, flag set on every path, one write per statement after all evaluation, value sees its own evaluated key, pairs written in statement order, keyword restrictions wired.", "typestate of the executed flag, reachability-after-write, value flow", "DESIGN.md §5 C12"),
+ "C13": ("Decides: no mutating storage call outside the writer plans or reachable from SELECT, planning or parsing/checking; no storage call before the parse error test; every storage error examined and returned on every failure path with no further storage call.", "call-graph effect analysis (mutating-site confinement, RTA closure) + SSA path/dominance analysis of error propagation", "DESIGN.md §5 C13"),
+ "C14": ("Decides: each Check visits every child before succeeding and returns its error; statements validate every expression; WHERE checked and Boolean in SELECT and DELETE; keyword flags wired; registry/arity lookup at check time (known finding); rejection precedes storage access.", "type-structure driven visitor-completeness check + SSA dominance/path analysis + call-graph reachability", "DESIGN.md §5 C14"),
+ "C15": ("Decides: precedence table equals the documented order; left associativity of every operand parse incl. BETWEEN; operator spelling maps mutually inverse; keywords case-folded as whole words.", "table extraction by constant propagation, symbolic offset of the precedence argument across helpers", "DESIGN.md §5 C15"),
+ "C16": ("Decides: operator/punctuation tokens carry their text and offset; two-character operators keyed on an always-updated previous character; lexer scans the caller's text unchanged; word classification table.", "SSA analysis of token literals and loop-carried scanner state", "DESIGN.md §5 C16"),
+ "C17": ("Decides: every error/node position is -1, 0 or a copied token/node offset with no arithmetic; Token.Pos written only by the lexer over the caller's text.", "inter-procedural provenance analysis of position values", "DESIGN.md §5 C17"),
+ "C18": ("Decides: EMPTY reads nothing, MGET uses only Get on all keys, prefix/range plans seek to the start and stop at the inclusive end, no cursor read after leaving the region, AND falls back to the narrower operand, access path never replaced.", "plan classification by storage effects, role-chain flow, loop-flag constant propagation", "DESIGN.md §5 C18"),
+ "C19": ("Decides: no statement-path function writes any package-level variable, registry map or shared registry row, or passes one by address; no goroutines, no unsafe.", "whole-package effect analysis of package-level state", "DESIGN.md §5 C19"),
 }
+CLAIMED = {k: (GEN + v[0], v[1], v[2]) for k, v in CLAIMED.items()}
 NA = {}
 props = [json.loads(l) for l in open(os.path.join(V, "properties.jsonl"))]
 checks = []
